@@ -43,6 +43,9 @@ def _template(ctx, kind, side, exch):
         ctx.constrain(And(sl < p1, sl < p2, sl < 99.9) if long else And(sl > p1, sl > p2, sl > 100.1))
         return S.make_template(side=side, entry=[(1.0, p1), (1.0, p2)], stop=[(2.0, sl)], qty=2.0,
                                on_open_exits=on_open, name='T2', cancel_entry=False)
+    if kind == 'T2x':  # three-point entry ladder, prices in any order and possibly equal, no exits (several fills in one minute)
+        ps = [ctx.real('p%d' % i, 50, 200) for i in range(1, 4)]
+        return S.make_template(side=side, entry=[(1.0, q) for q in ps], stop=None, take=None, qty=3.0, name='T2x', cancel_entry=False)
     if kind == 'T3':  # take-profit ladder, stop moved after a reduction
         pe = ctx.real('pe', 50, 200)
         sl = ctx.real('sl', 50, 200)
